@@ -536,7 +536,10 @@ def run(ctx):
     for p in progs:
         # the separate steps succeed on the same input: an all-in-one run the design accepts
         # must succeed as well (fault-free programs only, pipeline_check.must_ops)
-        p.setdefault("mustops", ["AllInOne"])
+        # ... and so must every step of the documented sequence (a tool that falls over on valid input
+        # cannot "produce the same info and voxels as the sequence of separate commands")
+        p.setdefault("mustops", ["AllInOne", "GenInfo", "GenScales", "Vol", "Slices", "Compute", "Convert",
+                                 "Stats", "Mesh", "Link"])
     res = pc.run_and_judge(ctx, progs, workers=12, chunk=120, label="gen")
     agree = 0
     for p, case, (st, clause, pos) in res:
